@@ -56,7 +56,10 @@ def hostOp (w : World) (h : Nat) (t : List String) : World × String :=
   | ["tcp_connect", s, a] => w.opTcpConnect h (slotOf s) (parseAddr a)
   | ["tcp_cpoll", s] => w.connectPoll h (slotOf s)
   | ["tcp_accept", ls, s] => w.opTcpAccept h (slotOf ls) (slotOf s)
-  | ["tcp_write", s, p] => w.opTcpWrite h (slotOf s) (parseHex p) false
+  | ["tcp_write", s, p] =>
+    -- the harness has `try_write` only on an unsplit stream; on a split-off write half it polls `poll_write`
+    let split := match w.getObj h (slotOf s) with | some (.stream none (some _)) => true | _ => false
+    w.opTcpWrite h (slotOf s) (parseHex p) split
   | ["tcp_pwrite", s, p] => w.opTcpWrite h (slotOf s) (parseHex p) true
   | ["tcp_shutdown", s] => w.opTcpShutdown h (slotOf s)
   | ["tcp_read", s, n] => w.opTcpRead h (slotOf s) (n.toNat?.getD 0) false
